@@ -53,6 +53,7 @@ theorem denseCoded_eq (m : Mode) (cinv : Arr → Option Nat → Except PyErr Mat
         | .error err => .error err
         | .ok Bs => .ok (dense m k n g.edges Bs)) := by
   unfold denseCoded
+  simp only [asDtype]
   rw [modeKnown_toS]
   simp only [Bool.not_true, Bool.false_eq_true, if_false]
   have h := flagLoop (ρ := Mat) (fun acc e => denseBody cinv X g k (toS m) nc bias acc e)
@@ -186,10 +187,10 @@ theorem indptrBody_eq (rows ip : List Nat) (i : Nat) : indptrBody rows ip i = in
     rw [hn, getD_last]
     rfl
 
-theorem finishBsr_eq (argsort : List Nat → List Nat) (V : Nat) (ts : List Trip) :
-    finishBsr argsort V (ts.map (·.blk)) (ts.map (·.col)) (ts.map (·.row)) =
+theorem finishBsr_eq (argsort : List Nat → List Nat) (V n : Nat) (dtype : DType) (ts : List Trip) :
+    finishBsr argsort V n dtype (ts.map (·.blk)) (ts.map (·.col)) (ts.map (·.row)) =
       assembleSorted V (permT ts (argsort (ts.map (·.row)))) := by
-  unfold finishBsr assembleSorted mkBsr permT
+  unfold finishBsr assembleSorted mkBsr permT withShape asDtype
   have h1 : ∀ p : List Nat, (pyIdx (ts.map (·.blk)) p : List Mat) = (p.map fun i => ts.getD i default).map (·.blk) := by
     intro p
     show p.map (fun i => (ts.map (·.blk)).getD i default) = _
@@ -229,6 +230,7 @@ theorem sparseCoded_eq (m : Mode) (cinv : Arr → Option Nat → Except PyErr Ma
         | .ok Bs => .ok (assembleSorted g.nVertices
             (permT (allTrips m k g.edges Bs) (argsort ((allTrips m k g.edges Bs).map (·.row)))))) := by
   unfold sparseCoded
+  simp only [asDtype]
   rw [modeKnown_toS]
   simp only [Bool.not_true, Bool.false_eq_true, if_false]
   have h := flagLoop (ρ := BSR) (fun acc e => sparseBody cinv X g k (toS m) nc bias acc e)
@@ -236,7 +238,7 @@ theorem sparseCoded_eq (m : Mode) (cinv : Arr → Option Nat → Except PyErr Ma
     (by intro v s e; simp [sparseBody])
     (by intro s e B hB; simp [sparseBody, hB])
     (by intro s e err he; simp [sparseBody, he])
-    (fun st => finishBsr argsort g.nVertices st.1 st.2.1 st.2.2.1)
+    (fun st => finishBsr argsort g.nVertices n dtype st.1 st.2.1 st.2.2.1)
     (zerosN (g.nEdges * 4) k k, List.replicate (g.nEdges * 4) (0 : Nat), List.replicate (g.nEdges * 4) (0 : Nat), (-(1) : Int))
     (List.range g.nEdges)
   generalize forLoop (none, zerosN (g.nEdges * 4) k k, List.replicate (g.nEdges * 4) (0 : Nat),
@@ -285,6 +287,7 @@ theorem denseDiagCoded_eq (cinv : Arr → Option Nat → Except PyErr Mat) (X : 
         | .error err => .error err
         | .ok Bs => .ok (denseDiag k n Bs)) := by
   unfold denseDiagCoded
+  simp only [asDtype]
   have h := flagLoop (ρ := Mat) (fun acc v => denseDiagBody cinv X k nc bias acc v)
     (fun v => cinv (vertexCov X k bias v) nc)
     (fun P v B => setSlice P (v * k) ((v + 1) * k) (v * k) ((v + 1) * k) B)
@@ -360,13 +363,14 @@ theorem sparseDiagCoded_eq (cinv : Arr → Option Nat → Except PyErr Mat) (arg
         | .ok Bs => .ok (assembleSorted g.nVertices
             (permT (diagTrips k 0 Bs) (argsort ((diagTrips k 0 Bs).map (·.row)))))) := by
   unfold sparseDiagCoded
+  simp only [asDtype]
   have h := flagLoop (ρ := BSR) (fun acc v => sparseDiagBody cinv X k nc bias acc v)
     (fun v => cinv (vertexCov X k bias v) nc)
     (fun (st : List Mat × List Nat × List Nat) v B => (pySet st.1 v B, pySet st.2.1 v v, pySet st.2.2 v v))
     (by intro v s e; simp [sparseDiagBody])
     (by intro s e B hB; simp [sparseDiagBody, hB])
     (by intro s e err he; simp [sparseDiagBody, he])
-    (fun st => finishBsr argsort g.nVertices st.1 st.2.1 st.2.2)
+    (fun st => finishBsr argsort g.nVertices n dtype st.1 st.2.1 st.2.2)
     (zerosN g.nVertices k k, List.replicate g.nVertices (0 : Nat), List.replicate g.nVertices (0 : Nat))
     (List.range g.nVertices)
   generalize forLoop (none, zerosN g.nVertices k k, List.replicate g.nVertices (0 : Nat),
@@ -391,7 +395,7 @@ theorem sparseDiagCoded_eq (cinv : Arr → Option Nat → Except PyErr Mat) (arg
     obtain ⟨d1, d2, d3⟩ := diagTrips_maps k Bs hBs 0
     simp only
     rw [← List.range_eq_range'] at d2 d3
-    have := finishBsr_eq argsort Bs.length (diagTrips k 0 Bs)
+    have := finishBsr_eq argsort Bs.length n dtype (diagTrips k 0 Bs)
     rw [d1, d2, d3] at this
     rw [this, d3]
 
@@ -415,6 +419,7 @@ theorem denseCodedRC_eq (cinv : Arr → Option Nat → Except PyErr Mat) (X : Ma
     ∃ covs, denseCodedRC cinv X g n k mode dtype nc bias =
       (denseCoded cinv X g n k mode dtype nc bias).map fun P => (P, covs) := by
   unfold denseCodedRC denseCoded
+  simp only [asDtype]
   cases modeKnown mode with
   | false => exact ⟨[], rfl⟩
   | true =>
@@ -458,6 +463,7 @@ theorem sparseCodedRC_eq (cinv : Arr → Option Nat → Except PyErr Mat) (argso
     ∃ covs, sparseCodedRC cinv argsort X g n k mode dtype nc bias =
       (sparseCoded cinv argsort X g n k mode dtype nc bias).map fun S => (S, covs) := by
   unfold sparseCodedRC sparseCoded
+  simp only [asDtype]
   cases modeKnown mode with
   | false => exact ⟨[], rfl⟩
   | true =>
@@ -507,6 +513,7 @@ theorem denseDiagCodedRC_eq (cinv : Arr → Option Nat → Except PyErr Mat) (X 
     ∃ covs, denseDiagCodedRC cinv X g n k dtype nc bias =
       (denseDiagCoded cinv X g n k dtype nc bias).map fun P => (P, covs) := by
   unfold denseDiagCodedRC denseDiagCoded
+  simp only [asDtype]
   have hs := forLoop_sim
     (fun (a : Option (Except PyErr (Mat × List Arr)) × Mat × List Arr) (b : Option (Except PyErr Mat) × Mat) =>
       a.2.1 = b.2 ∧ FlagRel a.1 b.1)
@@ -546,6 +553,7 @@ theorem sparseDiagCodedRC_eq (cinv : Arr → Option Nat → Except PyErr Mat) (a
     ∃ covs, sparseDiagCodedRC cinv argsort X g n k dtype nc bias =
       (sparseDiagCoded cinv argsort X g n k dtype nc bias).map fun S => (S, covs) := by
   unfold sparseDiagCodedRC sparseDiagCoded
+  simp only [asDtype]
   have hs := forLoop_sim
     (fun (a : Option (Except PyErr (BSR × List Arr)) × List Mat × List Arr × List Nat × List Nat)
         (b : Option (Except PyErr BSR) × List Mat × List Nat × List Nat) =>
